@@ -55,3 +55,9 @@ CORPUS += [
     Mut('c03-benign-threshold-square-root-of-tiny', 'torchtree/evolution/tree_likelihood.py', 'TreeLikelihoodModel.__init__', 'self.threshold = …',
         'self.threshold = math.sqrt(torch.finfo(subst_model.frequencies.dtype).tiny)', benign=True),
 ]
+CORPUS += [
+    Mut('c03-scalers-collected-in-a-default-argument', 'torchtree/evolution/tree_likelihood.py', '', "    threshold: float,\n) -> torch.Tensor:", "    threshold: float,\n    scalers: list = [],\n) -> torch.Tensor:", mode='text',
+        expect=[], benign=True, note='a mutable default that is never written is harmless'),
+    Mut('c03-node-rescaled-by-a-whole-tensor-maximum', 'torchtree/evolution/tree_likelihood.py', '', "            or torch.any(torch.max(partials[node], -2, keepdim=True)[0] < threshold)\n", "            or partials[node].max() < threshold\n", mode='text',
+        expect=[('C03.P', 'per-site-decisions::')]),
+]
